@@ -83,12 +83,12 @@ def Dg.nframes (d : Dg) : Nat :=
   | .gain => 1
   | .mod => if d.len ≤ 254 then 1 else 1 + (d.len - 254 + 617) / 618
 
-/-- number of frames `pack` produces before it fails (`ModulationOp::pack`: fewer than 2 samples is
-refused in the only frame; more than 65536 is refused by the frame whose cursor passes 65536) -/
+/-- number of frames `pack` produces before it fails (`ModulationOp::pack` checks the whole buffer
+length — 2..=65536 — before it builds the first frame) -/
 def Dg.okFrames (d : Dg) : Nat :=
   match d.kind with
   | .gain => 1
-  | .mod => if d.len < 2 then 0 else if d.len > 65536 then 106 else d.nframes
+  | .mod => if d.len < 2 then 0 else if d.len > 65536 then 0 else d.nframes
 
 def Dg.packErr (d : Dg) : Option Err :=
   match d.kind with
